@@ -10,8 +10,8 @@
    any length) and literal argument tuples / dicts / scalars of any size. *)
 From Coq Require Import ZArith List Bool NArith.
 Import ListNotations.
-Require Import PV.Gen.FormatRe PV.Format.Percent PV.Format.PyPercent PV.Format.Guards PV.Format.StrFormat.
-Require Import PV.Proofs.FormatPins PV.Proofs.FormatConv PV.Proofs.FormatPercent PV.Proofs.FormatStr.
+Require Import PV.Gen.FormatRe PV.Format.Percent PV.Format.PyPercent PV.Format.Guards PV.Format.StrFormat PV.Format.FormatEval.
+Require Import PV.Proofs.FormatPins PV.Proofs.FormatConv PV.Proofs.FormatPercent PV.Proofs.FormatStr PV.Proofs.FormatScan PV.Proofs.FormatEvalProofs.
 
 (* the regex text / flags / conversion sets / %c range the scanner model was written for *)
 Theorem C17_regex_pinned : regex_text = expected_regex_text /\ regex_flags = [2; 1]%N.
@@ -190,3 +190,111 @@ Example C17_format_examples :
   py_format_verdict [123; 58; 123; 58; 123; 125; 125; 125]%N 3 [] = VRaises.
 Proof. exact format_examples. Qed.
 Print Assumptions C17_format_examples.
+
+(* ------------------------------------------------------------------ scanner agreement (phase 2) *)
+(* Templates of any length without '(' and whose regex-digits are ASCII digits:
+   whenever the regex scanner leaves no '%' in a raw piece, CPython's parser
+   reads exactly the same specifiers.  (Both scanners are models; each is tied
+   to its implementation by the differential check.) *)
+Theorem C17_scan_agree_fragment : forall is_bytes t specs pieces,
+  frag is_bytes t = true ->
+  pa_scan is_bytes t = Some (specs, pieces) -> count_bad_pieces pieces = 0%nat ->
+  py_scan is_bytes t = PSOk specs.
+Proof. exact scan_agree_fragment. Qed.
+Print Assumptions C17_scan_agree_fragment.
+
+(* hence, on that fragment, the character-level theorems need no hypothesis about CPython's parser *)
+Theorem C17_percent_fragment_raise_reported : forall is_bytes t a specs pieces,
+  frag is_bytes t = true ->
+  pa_scan is_bytes t = Some (specs, pieces) ->
+  overflow_clause specs a = false ->
+  bytes_mapping_clause is_bytes specs = false ->
+  nonstr_keys_clause specs a = false ->
+  py_raises_chars is_bytes t a = Some true ->
+  pa_reports_chars is_bytes t a = Some true.
+Proof. exact percent_fragment_raise_reported. Qed.
+Print Assumptions C17_percent_fragment_raise_reported.
+
+Theorem C17_percent_fragment_report_sound : forall is_bytes t a specs pieces,
+  frag is_bytes t = true ->
+  pa_scan is_bytes t = Some (specs, pieces) -> count_bad_pieces pieces = 0%nat ->
+  c_range_clause is_bytes specs a = false ->
+  bytes_mapping_clause is_bytes specs = false ->
+  escape_only_mapping_clause is_bytes specs a = false ->
+  dict_keys_unique a ->
+  pa_reports_chars is_bytes t a = Some true ->
+  py_raises_chars is_bytes t a = Some true \/ lint_only is_bytes specs a = true.
+Proof. exact percent_fragment_report_sound. Qed.
+Print Assumptions C17_percent_fragment_report_sound.
+
+Example C17_fragment_example :
+  let t := [97; 37; 45; 53; 46; 50; 108; 100; 37; 37; 98; 10]%N in
+  frag false t = true /\
+  pa_scan false t = Some ([mk_cspec 100 None (Some [45%N]) (FNum 5) (FNum 2) (Some 108%N); bare 37], [[97]; []; [98]; []; [10]; [10]]%N) /\
+  py_scan false t = PSOk [mk_cspec 100 None (Some [45%N]) (FNum 5) (FNum 2) (Some 108%N); bare 37].
+Proof. exact fragment_example. Qed.
+Print Assumptions C17_fragment_example.
+
+(* ------------------------------------------------------------------ str.format on characters, extended specification (phase 2) *)
+Theorem C17_format_chars_raise_reported : forall t nargs kw fs fs',
+  pa_parse t = Some (fs, []) -> py_parse t = PYOk fs' -> map f_name fs = map f_name fs' ->
+  mix_clause fs' = false ->
+  py_fields_raise fs' nargs kw AInit 0 = true ->
+  option_map freport_reports (pa_format_check t nargs kw) = Some true.
+Proof. exact format_chars_raise_reported. Qed.
+Print Assumptions C17_format_chars_raise_reported.
+
+Theorem C17_format_chars_report_sound : forall t nargs kw fs fs' l,
+  pa_parse t = Some (fs, []) -> py_parse t = PYOk fs' -> map f_name fs = map f_name fs' ->
+  pa_format_check t nargs kw = Some (RFields l) -> nonempty l = true ->
+  py_format_verdict t nargs kw = VRaises \/ forallb is_unused l = true.
+Proof. exact format_chars_report_sound. Qed.
+Print Assumptions C17_format_chars_report_sound.
+
+Theorem C17_format_result_type : pa_format_result_is_str = py_format_result_is_str.
+Proof. exact format_result_type. Qed.
+Print Assumptions C17_format_result_type.
+
+(* the extended specification (attribute/index paths, conversions, nested specs,
+   format-spec validation) raises  ==>  reported, outside the three str.format findings *)
+Theorem C17_format_full_raise_reported : forall a fs,
+  forallb tfield_no_path fs = true ->
+  forallb tfield_plain fs = true ->
+  mix_clause (flat_map flatten_tfield fs) = false ->
+  eval_fields a fs AInit 0 = VR ->
+  nonempty (pa_fields_check (flat_map flatten_tfield fs) (nargs_of a) (kw_of a)) = true.
+Proof. exact format_full_raise_reported. Qed.
+Print Assumptions C17_format_full_raise_reported.
+
+Theorem C17_format_full_report_sound : forall a fs,
+  nonempty (pa_fields_check (flat_map flatten_tfield fs) (nargs_of a) (kw_of a)) = true ->
+  eval_fields a fs AInit 0 = VR \/
+  forallb is_unused (pa_fields_check (flat_map flatten_tfield fs) (nargs_of a) (kw_of a)) = true.
+Proof. exact format_full_report_sound. Qed.
+Print Assumptions C17_format_full_report_sound.
+
+(* every raise of the structural specification is a raise of the extended one;
+   on fields without path, conversion and spec the two coincide (nothing undecided) *)
+Theorem C17_format_struct_raise_is_full_raise : forall a fs st cur,
+  py_fields_raise (flat_map flatten_tfield fs) (nargs_of a) (kw_of a) st cur = true ->
+  eval_fields a fs st cur = VR.
+Proof. exact struct_raise_full_raise. Qed.
+Print Assumptions C17_format_struct_raise_is_full_raise.
+
+Theorem C17_format_simple_full_eq_struct : forall a fs st cur,
+  forallb tfield_simple fs = true ->
+  eval_fields a fs st cur =
+  if py_fields_raise (flat_map flatten_tfield fs) (nargs_of a) (kw_of a) st cur then VR else VF.
+Proof. exact simple_full_eq_struct. Qed.
+Print Assumptions C17_format_simple_full_eq_struct.
+
+(* "{0.nope}".format(1) and "{:d}".format("s"): raise, nothing reported *)
+Theorem C17_format_full_refuted :
+  let a1 := mk_fargs [FInt 1] [] in
+  let f1 := mk_tf (ANum 0) [(false, [110; 111; 112; 101]%N)] None [] in
+  let a2 := mk_fargs [FStr [115%N]] [] in
+  let f2 := mk_tf ANone [] None [SLit 100] in
+  (eval_fields a1 [f1] AInit 0 = VR /\ pa_fields_check (flatten_tfield f1) 1 [] = [] /\ tfield_no_path f1 = false) /\
+  (eval_fields a2 [f2] AInit 0 = VR /\ pa_fields_check (flatten_tfield f2) 1 [] = [] /\ tfield_plain f2 = false).
+Proof. exact format_full_refuted. Qed.
+Print Assumptions C17_format_full_refuted.
